@@ -259,10 +259,10 @@ def run(module, cfg=None, workers=16, env=None, timeout=600, metadir=None, cover
             r.violated = m.group(1)
             in_trace = True
             continue
-        if line.startswith("Error: Temporal properties were violated") or \
+        if (line.startswith("Error: Temporal propert") and "violated" in line) or \
                 (line.startswith("Error: Action property") and "violated" in line):
             r.ok = False
-            mm = re.search(r"Action property (\S+)", line)
+            mm = re.search(r"(?:Action property|Temporal property) (\S+)", line)
             r.violated = mm.group(1) if mm else "temporal"
             in_trace = True
             continue
